@@ -72,6 +72,14 @@ def check(ctx):
         dirs = ["p%02d" % i for i in range(ndirs)]
         bad = {d: (i % 3 == 1) for i, d in enumerate(dirs)}
         pkgs = {d: gen_pkg(rnd, d, i, bad[d]) for i, d in enumerate(dirs)}
+        # packages that are related to each other: two with the same package name (one uses the disk FFI), and one that
+        # reaches the FFI only through another package of the same invocation
+        pkgs["x/same"] = {"f.go": "package same\n\nimport \"github.com/goose-lang/goose/machine/disk\"\n\nfunc UseDisk() uint64 {\n\treturn disk.Size()\n}\n"}
+        pkgs["y/same"] = {"f.go": "package same\n\nfunc Plain() uint64 {\n\treturn 1\n}\n"}
+        pkgs["via"] = {"f.go": "package via\n\nimport \"example.com/m/x/same\"\n\nfunc Via() uint64 {\n\treturn same.UseDisk()\n}\n"}
+        for d in ("via", "x/same", "y/same"):
+            dirs.append(d)
+            bad[d] = False
         root = os.path.join(scratch, "m")
         gomod.write_module(root, pkgs)
         # reference: every package alone
